@@ -41,7 +41,10 @@ namespace details {
         read,
         write,
         compare_128bit_uuid,
-        compare_value
+        compare_value,
+        // read of a characteristic value by the server, to send the value as notification or indication.
+        // In contrast to a read by a client, this access is not subject to no_read_access.
+        notification_read
     };
 
     struct attribute_access_arguments
